@@ -350,12 +350,17 @@ func (in *c05Interp) exec(line string) string {
 func (in *c05Interp) judge(who string, sig [64]byte, r string) {
 	_, member := in.added[sig]
 	pop := len(in.hashes[c05Prefix(sig)])
+	if r != "true" && r != "false" {
+		in.s.Violation(fmt.Sprintf("Has(%x) by %s on a freshly sealed %s file failed: %q %s (member=%v, bucket population %d)", sig, who, in.fmt, r, zz.LastPanic, member, pop),
+			fmt.Sprintf("C05:has-error:%s:%s", in.fmt, who), in.s.Replay(in.caseOps))
+		return
+	}
 	switch {
 	case member:
 		in.s.Count(who + ":member")
 		if r != "true" {
 			in.s.Violation(fmt.Sprintf("false negative: added signature %x answered %q by %s (format %s, bucket population %d)", sig, r, who, in.fmt, pop),
-				fmt.Sprintf("C05:false-negative:%s:%s:pop=%s", in.fmt, who, c05PopClass(pop)), in.s.Replay(in.caseOps))
+				fmt.Sprintf("C05:false-negative:%s:%s", in.fmt, who), in.s.Replay(in.caseOps))
 		}
 	case in.collides(sig):
 		in.s.Count(who + ":non-member-hash-collision")
@@ -369,7 +374,7 @@ func (in *c05Interp) judge(who string, sig [64]byte, r string) {
 		}
 		if r != "false" {
 			in.s.Violation(fmt.Sprintf("signature %x that was never added (no added signature with its prefix has its hash) answered %q by %s (format %s)", sig, r, who, in.fmt),
-				fmt.Sprintf("C05:false-positive:%s:%s:pop=%s", in.fmt, who, c05PopClass(pop)), in.s.Replay(in.caseOps))
+				fmt.Sprintf("C05:false-positive:%s:%s", in.fmt, who), in.s.Replay(in.caseOps))
 		}
 	}
 }
